@@ -2,12 +2,21 @@ import random
 import string
 from datetime import datetime
 from random import choices
-from typing import Iterator
+from typing import Iterable, Iterator
 from uuid import UUID, uuid4
 
 from more_itertools import interleave, take
 
 from predicate.predicate import Predicate
+
+
+def all_hashable(values: Iterable) -> bool:
+    """Return True if a set can be built from the values."""
+    try:
+        set(values)
+    except TypeError:
+        return False
+    return True
 
 
 def random_complex_numbers() -> Iterator:
